@@ -4,7 +4,8 @@
    Parse / ParseAndRun / Invoke / RunCompiled, and the kernel's  n mod 256).
    For all failure kinds, all codes (Z, guarded by 1..255 where the property says so: [wf_body], [wf_prog]), all
    positions of a command line of any length, all dependency sets (nested, Deps and SerialDeps), all front-end
-   command lines and build outcomes.  [fixed = true] is the current generated main, [false] the one before 0cc1688. *)
+   command lines and build outcomes.  [fixed = true] is the current generated main, [false] the one before 0cc1688;
+   [compiled_main_gen _ false] is the one before 836d65c (two failures not reported on stderr). *)
 From Mage Require Import Base.Strs Model.Deps Model.ExitChain Proof.Deps_defs Proof.Exit_facts Proof.ExitChain_facts.
 Local Open Scope Z_scope.
 
@@ -114,7 +115,35 @@ Proof. exact compiled_bad_flag. Qed.
 Theorem C05_compiled_bad_flag_before_fix_refuted : exists cp, cp_flags cp = FlagsBad /\ compiled_exit false cp = 0.
 Proof. exact compiled_bad_flag_before_fix. Qed.
 
+(* the failure message is written to stderr: whenever the generated main ends with os.Exit(n) it has itself written
+   a diagnostic to stderr, unless a requested body (or the default target's) ended the process with os.Exit *)
+Theorem C05_failure_reported : forall cp n,
+  h_exit (compiled_main true cp) = Some n -> h_msg (compiled_main true cp) = false ->
+  exists b c, run_body b = Exited c /\ (In (MRun b) (cp_mentions cp) \/ cp_default cp = DefaultBody b).
+Proof. exact failure_reported. Qed.
+
+(* in particular (since 836d65c) a bad flag to the compiled program and a listing that cannot be written *)
+Theorem C05_bad_flag_reported : forall cp, cp_flags cp = FlagsBad ->
+  h_exit (compiled_main true cp) = Some 2 /\ h_msg (compiled_main true cp) = true.
+Proof. exact bad_flag_reported. Qed.
+
+Theorem C05_list_failure_reported : forall cp, cp_flags cp = FlagsOk -> cp_help cp && no_words cp = false ->
+  cp_list cp = true -> cp_list_err cp = true ->
+  h_exit (compiled_main true cp) = Some 1 /\ h_msg (compiled_main true cp) = true.
+Proof. exact list_failure_reported. Qed.
+
+(* before 836d65c (reports = false) both ended non-zero with nothing on stderr *)
+Theorem C05_reported_before_repair_refuted :
+  (exists cp, cp_flags cp = FlagsBad /\ h_exit (compiled_main_gen true false cp) = Some 2 /\ h_msg (compiled_main_gen true false cp) = false) /\
+  (exists cp, cp_list cp = true /\ cp_list_err cp = true /\
+              h_exit (compiled_main_gen true false cp) = Some 1 /\ h_msg (compiled_main_gen true false cp) = false).
+Proof. exact silent_before_repair. Qed.
+
 Print Assumptions C05_zero_iff_ok.
+Print Assumptions C05_failure_reported.
+Print Assumptions C05_bad_flag_reported.
+Print Assumptions C05_list_failure_reported.
+Print Assumptions C05_reported_before_repair_refuted.
 Print Assumptions C05_compiled_zero_iff_ok.
 Print Assumptions C05_first_failure_decides.
 Print Assumptions C05_all_complete.
